@@ -37,6 +37,31 @@ pub fn c06_soundness(cx: &mut Cx, b: &Board, m: &RPos, ev: &Ev, route: &str) {
 impl BoardMonitor for C06 {
     fn on_board(&mut self, cx: &mut Cx, b: &Board, m: &RPos, ev: &Ev) {
         c06_soundness(cx, b, m, ev, ev.hist.route);
+        // a move the *library* calls legal but the rules do not: if playing it (checked play) hands out
+        // an unsound board, that is a C06 matter too (normally this set is empty)
+        if let Ok((_, moves, _)) = lib_generate(b) {
+            let legal = m.legal_moves();
+            for mv in moves {
+                if !legal.contains(&RMove::of(mv)) {
+                    cx.count("library-legal-moves-rejected-by-the-model(played)");
+                    let mut nb = b.clone();
+                    if let Ok(Ok(())) = guard(|| nb.try_play(mv)) {
+                        let nm = RPos::observe(&nb);
+                        if let Err(clause) = nm.structurally_sound() {
+                            board_violation(
+                                cx,
+                                "C06",
+                                format!("unsound-board-handed-out|{}|after-library-legal-move", clause),
+                                format!("try_play({}) succeeded and handed out a board that violates '{}'", RMove::of(mv).text(), clause),
+                                b,
+                                m,
+                                ev,
+                            );
+                        }
+                    }
+                }
+            }
+        }
         match ev.kind {
             EvKind::Root => cx.count("sound-checked:roots"),
             EvKind::Play => cx.count("sound-checked:after-play"),
@@ -1215,6 +1240,69 @@ impl BoardMonitor for C10 {
         // transposition probe
         if cx.rng.chance(1, 4) {
             transposition_probe(cx, b, m, ev);
+        }
+    }
+}
+
+/// Boards arising from (possibly odd) text: whatever a parser accepts must hash like the same
+/// position built through the builder.
+pub fn c10_text_routes(cx: &mut Cx, n: u64) {
+    use crate::workload::text::{alias_substitution, mutate, FEN_ALPHABET};
+    for i in 0..n {
+        let p = match i % 4 {
+            0 => gen::castle_case(&mut cx.rng),
+            1 => gen::ep_case(&mut cx.rng),
+            _ => gen::sound_random(&mut cx.rng),
+        };
+        let base = write_fen(&p, cx.rng.chance(3, 4));
+        let fields: Vec<&str> = base.split(' ').collect();
+        let text = match cx.rng.below(6) {
+            0 => base.clone(),
+            1 => mutate(&mut cx.rng, &base, FEN_ALPHABET),
+            2 => alias_substitution(&mut cx.rng, &base),
+            3 | 4 => {
+                // perturb the castling field: add / repeat / reorder rook letters
+                let mut c: Vec<char> = fields[2].chars().filter(|&x| x != '-').collect();
+                let extra = *cx.rng.pick(&['A', 'B', 'C', 'D', 'E', 'F', 'G', 'H', 'a', 'b', 'c', 'd', 'e', 'f', 'g', 'h', 'K', 'Q', 'k', 'q']);
+                let at = cx.rng.usize(c.len() + 1);
+                c.insert(at, extra);
+                if cx.rng.chance(1, 3) {
+                    cx.rng.shuffle(&mut c);
+                }
+                let mut f: Vec<String> = fields.iter().map(|x| x.to_string()).collect();
+                f[2] = c.into_iter().collect();
+                f.join(" ")
+            }
+            _ => {
+                // another EP square / clocks
+                let mut f: Vec<String> = fields.iter().map(|x| x.to_string()).collect();
+                f[3] = format!("{}{}", (b'a' + cx.rng.below(8) as u8) as char, if p.stm == cozy_chess::Color::White { 6 } else { 3 });
+                f[4] = cx.rng.range(0, 100).to_string();
+                f.join(" ")
+            }
+        };
+        for which in 0..3 {
+            let r = guard(|| match which {
+                0 => Board::from_fen(&text, false).ok(),
+                1 => Board::from_fen(&text, true).ok(),
+                _ => text.parse::<Board>().ok(),
+            });
+            if let Ok(Some(b)) = r {
+                cx.eval();
+                cx.count("text-route-boards");
+                let m = RPos::observe(&b);
+                if let Ok(Ok(fresh)) = build(&m) {
+                    if fresh.hash() != b.hash() || fresh.hash_without_ep() != b.hash_without_ep() {
+                        cx.violation(
+                            "C10|text-route|hash-differs-from-builder-route".to_string(),
+                            format!("the board parsed from {:?} has hash {:#018x} but the same position built through the builder has {:#018x}", text, b.hash(), fresh.hash()),
+                            format!("text={:?} position='{}'", text, write_fen(&m, true)),
+                            vec!["fen".to_string(), "C10".to_string(), crate::hex(&text)],
+                        );
+                    }
+                }
+                cx.distinct(fnv(text.as_bytes()));
+            }
         }
     }
 }
